@@ -1,4 +1,4 @@
-\* C05 design check: sanitisers with the proposed repairs keep every accepted value inside its declaration, in both contexts
+\* C05 negative: KeyValue[string, SafeCSSProperty] handled by writing the plain-string name as it is must be rejected (ArgRule)
 CONSTANTS
   Classes <- ClassesDef
   Contexts <- ContextsDef
@@ -9,11 +9,11 @@ CONSTANTS
   BgFix = TRUE
   TrackAttribution = FALSE
   AttrEscapes = 1
-  KvSafeProp = "unsupported"
+  KvSafeProp = "raw"
   EmitEdges = FALSE
 INIT Init
 NEXT Next
 VIEW View
 
-INVARIANTS TypeOK ArgRule OneDeclaration InnocuousOnReject
+INVARIANTS TypeOK ArgRule
 CHECK_DEADLOCK FALSE
